@@ -53,7 +53,7 @@ Definition in_range (k : sk) (z : Z) : bool :=
   | KI64 => (-9223372036854775808 <=? z) && (z <? 9223372036854775808)
   | KF128 => (-170141183460469231731687303715884105728 <=? z) &&
              (z <? 170141183460469231731687303715884105728)
-  | KChar8 => is_scalar z
+  | KChar8 => (0 <=? z) && (z <? 256)      (* one octet (ISO 8859-1); a Rust char above U+00FF is no char8 *)
   | KBool => (z =? 0) || (z =? 1)
   end.
 (* Rust Strings: scalar values; lengths fit the u32 length fields *)
@@ -184,8 +184,6 @@ Definition has_opt_member (t : ty) : bool :=
   | TStruct _ ms | TUnion _ _ ms => existsb (fun mx => m_opt (fst mx)) ms
   | _ => false
   end.
-Definition is_f128 (t : ty) : bool := match t with TPrim PF128 => true | _ => false end.
-Definition is_char8 (t : ty) : bool := match t with TPrim PChar8 => true | _ => false end.
 Definition is_union (t : ty) : bool := match t with TUnion _ _ _ => true | _ => false end.
 Definition is_nonfinal (t : ty) : bool :=
   match t with TStruct Final _ => false | TStruct _ _ => true | _ => false end.
@@ -199,34 +197,13 @@ Definition stage1 (t : ty) : bool :=
 Definition stage2 (t : ty) : bool :=
   negb (ty_any (fun t => is_union t || is_mutable t) t).
 
-(* a Char8 outside ASCII somewhere in the value *)
-Fixpoint val_nonascii_char (v : val) : bool :=
-  match v with
-  | VP KChar8 z => 128 <=? z
-  | VSeqP KChar8 l => existsb (fun z => 128 <=? z) l
-  | VData d =>
-    (fix go (d : list (Z * val)) : bool :=
-       match d with [] => false | (_, v') :: r => val_nonascii_char v' || go r end) d
-  | VSeqData l =>
-    (fix gol (l : list (list (Z * val))) : bool :=
-       match l with
-       | [] => false
-       | d :: r =>
-         (fix go (d : list (Z * val)) : bool :=
-            match d with [] => false | (_, v') :: q => val_nonascii_char v' || go q end) d || gol r
-       end) l
-  | _ => false
-  end.
-
-(* known-finding classes of a round-trip case (0 = none):
-   1  a char8 value >= 0x80 is written as 2..4 UTF-8 bytes and read back as one byte
-   2  XCDR1: a float128 is aligned to 8 by the writer and to 16 by the reader
+(* known-finding classes of a round-trip case (0 = none).  Classes 1 (char8 >= 0x80 written as
+   UTF-8) and 2 (XCDR1 float128 reader alignment) were repaired in /repo (c6ffb24, 0b5427b) and
+   no longer exist; the remaining numbers are kept stable:
    3  XCDR1: after an optional member the reader position is rewound to the member header
    4  mutable types / unions (stage 3): several defects, see the S3 witnesses *)
 Definition known_class (v : ver) (t : ty) (x : val) : N :=
-  if val_nonascii_char x then 1%N
-  else if (match v with V1 => true | V2 => false end) && ty_any is_f128 t then 2%N
-  else if (match v with V1 => true | V2 => false end) && ty_any has_opt_member t then 3%N
+  if (match v with V1 => true | V2 => false end) && ty_any has_opt_member t then 3%N
   else if negb (stage2 t) then 4%N
   else 0%N.
 
@@ -238,9 +215,9 @@ Definition padding_ok (bs : list Z) : bool :=
    (0 <=? n) && (n <=? 3) && (4 + n <=? blen bs) &&
    forallb (Z.eqb 0) (skipn (length bs - Z.to_nat n) bs)).
 
-(* S1+S2 in one predicate: no union, no mutable type; in XCDR1 additionally no float128 and no
-   optional member (the three recorded reader defects) *)
+(* S1+S2 in one predicate: no union, no mutable type; in XCDR1 additionally no optional member
+   (the recorded reader defect) *)
 Definition tbad (V : ver) (t : ty) : bool :=
   is_union t || is_mutable t ||
-  (match V with V1 => is_f128 t || has_opt_member t | V2 => false end).
+  (match V with V1 => has_opt_member t | V2 => false end).
 Definition tgood (V : ver) (t : ty) : bool := wf_ty t && negb (ty_any (tbad V) t).
